@@ -20,6 +20,9 @@ from .core import norm
 PURE_CALLS = {
     "str", "len", "isinstance", "issubclass", "type", "getattr", "hasattr", "repr", "int", "float", "bool", "tuple",
     "list", "sorted", "max", "min", "abs", "np.dtype", "numpy.dtype", "frozenset", "set", "dict", "zip", "range", "enumerate",
+    # NumPy functions that only read their arguments
+    "np.count_nonzero", "np.any", "np.all", "np.abs", "np.shares_memory", "np.ptp", "np.isscalar", "np.ndim", "np.shape", "np.size",
+    "np.asarray", "np.asanyarray", "np.isnan", "np.isfinite", "np.array_equal", "np.prod", "np.result_type", "np.iscomplexobj",
 }
 
 
@@ -52,6 +55,14 @@ def is_pure(e) -> bool:
         return norm(e.func) in PURE_CALLS and args_pure
     if isinstance(e, ast.JoinedStr):
         return True
+    if isinstance(e, ast.Starred):
+        return is_pure(e.value)
+    if isinstance(e, (ast.ListComp, ast.SetComp, ast.GeneratorExp)):
+        return is_pure(e.elt) and all(is_pure(g.iter) and all(is_pure(c) for c in g.ifs) for g in e.generators)
+    if isinstance(e, ast.DictComp):
+        return is_pure(e.key) and is_pure(e.value) and all(is_pure(g.iter) and all(is_pure(c) for c in g.ifs) for g in e.generators)
+    if isinstance(e, ast.Dict):
+        return all(k is None or is_pure(k) for k in e.keys) and all(is_pure(v) for v in e.values)
     return False
 
 
@@ -115,9 +126,48 @@ class _Canon(ast.NodeTransformer):
             n.attr = "value"
         return n
 
+    def visit_Subscript(self, n):
+        self.generic_visit(n)
+        # (a, b)[0] -> a
+        if isinstance(n.value, (ast.Tuple, ast.List)) and isinstance(n.slice, ast.Constant) and isinstance(n.slice.value, int) and not any(isinstance(e, ast.Starred) for e in n.value.elts):
+            k = n.slice.value
+            if -len(n.value.elts) <= k < len(n.value.elts):
+                return n.value.elts[k]
+        return n
+
+
+def _rename_comprehension_vars(tree):
+    """bound variables of comprehensions / generator expressions / lambdas get position-based names"""
+    k = [0]
+
+    def rename(node, mapping):
+        for n in ast.walk(node):
+            if isinstance(n, ast.Name) and n.id in mapping:
+                n.id = mapping[n.id]
+            elif isinstance(n, ast.arg) and n.arg in mapping:
+                n.arg = mapping[n.arg]
+
+    for node in ast.walk(tree):
+        if isinstance(node, (ast.ListComp, ast.SetComp, ast.GeneratorExp, ast.DictComp)):
+            mapping = {}
+            for g in node.generators:
+                for t in ast.walk(g.target):
+                    if isinstance(t, ast.Name) and not t.id.startswith("_c") and t.id not in mapping:
+                        mapping[t.id] = f"_c{k[0]}"
+                        k[0] += 1
+            rename(node, mapping)
+        elif isinstance(node, ast.Lambda):
+            mapping = {}
+            for a in node.args.args:
+                if not a.arg.startswith("_c"):
+                    mapping[a.arg] = f"_c{k[0]}"
+                    k[0] += 1
+            rename(node, mapping)
+    return tree
+
 
 def canon_node(e):
-    return _Canon().visit(copy.deepcopy(e))
+    return _rename_comprehension_vars(_Canon().visit(copy.deepcopy(e)))
 
 
 def cnorm(e) -> str:
@@ -206,20 +256,27 @@ def canon_block(stmts, keep=(), expand=True) -> list[str]:
     return out
 
 
+def fn_pure_env(fn) -> dict:
+    """locals of a function that are bound exactly once, to a pure expression"""
+    env = {}
+    counts, defs = {}, {}
+    params = set(fn.params) | ({fn.vararg} if fn.vararg else set()) | ({fn.kwarg} if fn.kwarg else set())
+    for n in ast.walk(fn.node):
+        if isinstance(n, ast.Name) and isinstance(n.ctx, ast.Store):
+            counts[n.id] = counts.get(n.id, 0) + 1
+        if isinstance(n, ast.Assign) and len(n.targets) == 1 and isinstance(n.targets[0], ast.Name):
+            defs[n.targets[0].id] = n.value
+    for k, v in defs.items():
+        if counts.get(k) == 1 and k not in params and is_pure(v):
+            env[k] = v
+    return env
+
+
 def canon_expr(e, fn=None, extra_env=None) -> str:
     """canonical text of one expression; with `fn`, locals assigned exactly once to a pure expression are expanded"""
     env = {}
     if fn is not None:
-        counts, defs = {}, {}
-        params = set(fn.params) | ({fn.vararg} if fn.vararg else set()) | ({fn.kwarg} if fn.kwarg else set())
-        for n in ast.walk(fn.node):
-            if isinstance(n, ast.Name) and isinstance(n.ctx, ast.Store):
-                counts[n.id] = counts.get(n.id, 0) + 1
-            if isinstance(n, ast.Assign) and len(n.targets) == 1 and isinstance(n.targets[0], ast.Name):
-                defs[n.targets[0].id] = n.value
-        for k, v in defs.items():
-            if counts.get(k) == 1 and k not in params and is_pure(v):
-                env[k] = v
+        env = fn_pure_env(fn)
     if extra_env:
         env.update(extra_env)
     cur = copy.deepcopy(e)
@@ -349,8 +406,12 @@ def summarise(fn, body=None, keep=(), limit=4000):
     stmts = atomise(split_ifexp(list(body if body is not None else fn.body)))
     params = set(fn.params) | ({fn.vararg} if fn.vararg else set()) | ({fn.kwarg} if fn.kwarg else set()) | set(keep)
     out = []
+    outer = {}
+    if body is not None:
+        bound_here = {n.id for st in stmts for n in ast.walk(st) if isinstance(n, ast.Name) and isinstance(n.ctx, ast.Store)}
+        outer = {k: canon_node(v) for k, v in fn_pure_env(fn).items() if k not in bound_here and k not in params}
     for p in enum_paths(stmts, limit=limit):
-        env = {}
+        env = dict(outer)
         impure = set()
         facts = set()
         effects = []
